@@ -758,7 +758,9 @@ increment must not be naught");
 		dt_io_write(tgt, ofmt, NULL, '\n');
 
 		nxt = __seq_next(tmp, &clo);
-		if (UNLIKELY(nxt.d.u == tmp.d.u && nxt.t.u == tmp.t.u)) {
+		if (UNLIKELY(nxt.typ != DT_SEXY
+			     ? nxt.d.u == tmp.d.u && nxt.t.u == tmp.t.u
+			     : nxt.sexy == tmp.sexy)) {
 			/* the increment doesn't get us anywhere from here,
 			 * e.g. a day past a friday in business days */
 			break;
